@@ -44,6 +44,9 @@ impl<T> VxSet<T> {
     pub uninterp spec fn view(&self) -> Set<T>;
     #[verifier::external_body]
     pub fn new() -> (r: Self) ensures r@ == Set::<T>::empty() { unimplemented!() }
+    // Extend<T>::extend(other set): every element of the other set is inserted
+    #[verifier::external_body]
+    pub fn extend(&mut self, o: VxSet<T>) ensures final(self)@ == old(self)@.union(o@) { unimplemented!() }
 }
 
 #[verifier::external_body]
@@ -55,6 +58,12 @@ impl<L: ChainListener> VxListeners<L> {
     pub fn insert(&mut self, k: L::Key, v: (L, ListenSlot)) -> (r: Option<(L, ListenSlot)>) ensures final(self)@ == old(self)@.insert(k, v) { unimplemented!() }
     #[verifier::external_body]
     pub fn remove(&mut self, k: &L::Key) -> (r: Option<(L, ListenSlot)>) ensures final(self)@ == old(self)@.remove(*k) { unimplemented!() }
+    // `self.listeners.get_mut(key).expect(..)` followed by writes through the reference, modelled as: take the entry out (abort when
+    // there is none), change it, put it back under the same key (manual rewrite in add_listener_watches)
+    #[verifier::external_body]
+    pub fn vx_take(&self, k: &L::Key) -> (r: (L, ListenSlot)) requires self@.contains_key(*k) ensures r == self@[*k] { unimplemented!() }
+    #[verifier::external_body]
+    pub fn vx_put(&mut self, k: &L::Key, v: (L, ListenSlot)) ensures final(self)@ == old(self)@.insert(*k, v) { unimplemented!() }
 }
 #[verifier::external_body]
 pub struct VxValidatorFactory { _p: u8 }
@@ -290,14 +299,19 @@ impl<L: ChainListener> ChainTracker<L> {
         final(self).headers == old(self).headers && final(self).tip == old(self).tip && final(self).height == old(self).height,
 //@end
 
-    // (`slot.watches.extend(watches)` through `get_mut`: trusted, the body is one call)
-//@fn vls-core/src/chain/tracker.rs :: impl<L: ChainListener> ChainTracker<L> :: add_listener_watches mode=trusted
+//@fn vls-core/src/chain/tracker.rs :: impl<L: ChainListener> ChainTracker<L> :: add_listener_watches props=C13,C14
     requires old(self).listeners@.contains_key(*key),
     ensures
         final(self).listeners@ == old(self).listeners@.insert(*key, (old(self).listeners@[*key].0,
             ListenSlot { watches: final(self).listeners@[*key].1.watches, ..old(self).listeners@[*key].1 })),
-        final(self).listeners@[*key].1.watches@ == old(self).listeners@[*key].1.watches@.union(watches@),
+        // the new watches are ADDED to what the listener already watches: nothing that was watched drops out of the set the
+        // unspent-output proof of the next block is checked for
+        final(self).listeners@[*key].1.watches@ == old(self).listeners@[*key].1.watches@.union(watches@),      //[C13.add-watches.adds-to-the-watched-set] [C14.add-watches.adds-to-the-watched-set]
         final(self).headers == old(self).headers && final(self).tip == old(self).tip && final(self).height == old(self).height,
+// `get_mut(key).expect(..)` + writes through the reference -> take the entry, change it, put it back (manual rewrite; the statement
+// that changes `slot.watches` stays the real text)
+//@sub /let \(_, slot\) =\s*self\.listeners\.get_mut\(key\)\.vx_expect\(\);/ => let mut vx_e = self.listeners.vx_take(key);
+//@sub /\bslot\.watches([^;]*);/ => vx_e.1.watches\1; self.listeners.vx_put(key, vx_e);
 //@end
 
 } // impl
